@@ -369,11 +369,15 @@ class G:
             c["default"] = self.pick(self.STATIC_DEFAULTS[base])
         else:
             opts = ["now()", "today()", "uuid()", "1 + 1", "3 mod 3", "concat('a', 'b')", "if(1 = 1, 'a', 'b')",
-                    "string-length('x')", "once(random())"]
+                    "string-length('x')", "once(random())",
+                    # a hyphen in front of what makes the cell an expression (date-like types read a lone hyphen as part of a literal)
+                    "1 - today()", "0 - 1 + now()", "(0 - 7) + today()", "2020-01-01 + 1"]
             if self.names:
                 opts += ["${%s}" % self.pick(self.names), "${%s} + 1" % self.pick(self.names), "${%s} - 7" % self.pick(self.names),
                          "${%s} - ${%s}" % (self.pick(self.names), self.pick(self.names)),
-                         "concat(${%s}, 'z')" % self.pick(self.names)]
+                         "concat(${%s}, 'z')" % self.pick(self.names), "(0 - 7) + ${%s}" % self.pick(self.names),
+                         # a bare path with a predicate
+                         "../%s[1]" % self.pick(self.names)]
             c["default"] = self.pick(opts)
 
     def question(self, depth, inside_repeat, table_list=None):
@@ -588,6 +592,9 @@ class G:
                 table_list = self.some_list()
                 while table_list["name"] in self.search_lists:
                     table_list = self.make_list()
+            if kind == "g" and P("p_intent", 0.0):
+                # documented: a group can launch an external app
+                c["intent"] = "ex:org.app.QUERY(a=" + ("${%s}" % self.pick(self.names) if self.names else "'v'") + ")"
             if P("p_group_logic", 0.2):
                 c["relevant"] = self.expr()
             if kind == "r" and P("p_repeat_count", 0.3):
